@@ -254,7 +254,11 @@ func (w *Walker) bindLoopVars(rng *ast.RangeStmt, table *Term, st *State, loopID
 		k := fresh("key")
 		k.Name = "rangekey:" + loopID
 		if table != nil {
-			k = mkTerm(KLocal, "rangekey:"+loopID+":"+table.S)
+			kt := table
+			if kt.K == KLen && len(kt.Args) == 1 {
+				kt = kt.Args[0] // for i := range len(T): the key ranges over T's indices
+			}
+			k = mkTerm(KLocal, "rangekey:"+loopID+":"+kt.S)
 			k.Reads = nil
 		}
 		k.Unsigned = false
@@ -415,6 +419,14 @@ func (w *Walker) evalCall(call *ast.CallExpr, st *State, nres int) []callRes {
 			return w.builtin(id.Name, call, st)
 		}
 	}
+	// function values: an immediately invoked literal, or a local / parameter holding a literal, a method value or a
+	// module function
+	if lit, ok := fun.(*ast.FuncLit); ok {
+		return w.callFuncVal(call, &FuncVal{Lit: lit, Owner: w.Fn}, st, nres)
+	}
+	if fv := w.funcValueOf(fun, st); fv != nil {
+		return w.callFuncVal(call, fv, st, nres)
+	}
 	// static callee inside the module
 	if fn := w.staticCallee(call); fn != nil {
 		return w.callInternal(call, fn, st, nres)
@@ -469,6 +481,12 @@ func (w *Walker) evalCall(call *ast.CallExpr, st *State, nres int) []callRes {
 	recvs, args, sts := w.evalCallOperands(call, st)
 	var out []callRes
 	for i, s := range sts {
+		for _, at := range args[i] {
+			if at != nil && at.Fun != nil && w.Fn.Pkg.PkgPath == modPath {
+				// the callee may call it any number of times: its effects are not accounted for
+				w.undecided(call, "a function value is handed to a function outside the module")
+			}
+		}
 		id := "dyn:?"
 		var res []*Term
 		if f, ok := obj.(*types.Func); ok {
@@ -482,7 +500,7 @@ func (w *Walker) evalCall(call *ast.CallExpr, st *State, nres int) []callRes {
 		}
 		w.siteExt(call, id, s, recvs[i], args[i])
 		if w.record && recvs[i] != nil && recvs[i].K == KIndex && recvs[i].Args[0].K == KField && strings.HasPrefix(id, "if:") {
-			site := w.recA().siteFor(w.Fn, call, "deref", id, recvs[i].Args[0].Name)
+			site := w.recA().siteFor(w.sfn(), call, "deref", id, recvs[i].Args[0].Name)
 			w.A.snap(site, s, recvs[i], args[i], nil, recvs[i].Args[1])
 		}
 		w.extEffects(id, call, recvs[i], args[i], s)
@@ -744,7 +762,21 @@ func (w *Walker) callInternal(call *ast.CallExpr, fn *FuncInfo, st *State, nres 
 
 // callInternalShift: as callInternal; with methodExpr the first argument is the receiver (T.method(recv, args...)).
 func (w *Walker) callInternalShift(call *ast.CallExpr, fn *FuncInfo, st *State, nres int, methodExpr bool) []callRes {
+	return w.callInternalFull(call, fn, st, nres, methodExpr, nil)
+}
+
+// callInternalRecv: a call of fn through a method value whose receiver was bound earlier.
+func (w *Walker) callInternalRecv(call *ast.CallExpr, fn *FuncInfo, st *State, nres int, recv *Term) []callRes {
+	return w.callInternalFull(call, fn, st, nres, false, recv)
+}
+
+func (w *Walker) callInternalFull(call *ast.CallExpr, fn *FuncInfo, st *State, nres int, methodExpr bool, boundRecv *Term) []callRes {
 	recvs, args, sts := w.evalCallOperands(call, st)
+	if boundRecv != nil {
+		for i := range recvs {
+			recvs[i] = boundRecv
+		}
+	}
 	if methodExpr {
 		for i := range args {
 			if len(args[i]) > 0 {
@@ -761,10 +793,20 @@ func (w *Walker) callInternalShift(call *ast.CallExpr, fn *FuncInfo, st *State, 
 		}
 		// record site
 		if w.record {
-			site := w.recA().siteFor(w.Fn, call, "call", id, "")
+			site := w.recA().siteFor(w.sfn(), call, "call", id, "")
 			site.Target = fn
 			site.Call = call
 			w.A.snap(site, s, recvs[i], args[i], nil, nil)
+		}
+		// higher-order helpers are walked inline with the actual function values
+		if w.A.higherOrder(fn) {
+			if rs, ok := w.inlineCallHO(fn, recvs[i], args[i], s, nres); ok {
+				out = append(out, rs...)
+			} else {
+				w.undecided(call, "higher-order helper "+fn.Name+" could not be walked inline")
+				out = append(out, callRes{s, manyFresh(nres)})
+			}
+			continue
 		}
 		// pure functions: canonical terms, no effects (validators — pure functions whose only result is an error — go
 		// through the summary instead: what matters about them is what their nil result implies)
@@ -975,7 +1017,17 @@ func mergePhis(ps []string) []string {
 // continuation per return path. pure=true is used for side-effect-free functions with loops or several statements
 // (so that e.g. an extracted counting loop keeps its quorum term); it gives up when the callee has too many paths.
 func (w *Walker) inlineCall(fn *FuncInfo, recv *Term, args []*Term, st *State, nres int, pure bool) ([]callRes, bool) {
-	if w.depth >= 4 || fn == w.Fn {
+	return w.inlineCallMode(fn, recv, args, st, nres, pure, false)
+}
+
+// inlineCallHO: a higher-order helper is always walked inline; the sites inside it are recorded here, in the context of
+// this call, and belong to the function whose walk reached them.
+func (w *Walker) inlineCallHO(fn *FuncInfo, recv *Term, args []*Term, st *State, nres int) ([]callRes, bool) {
+	return w.inlineCallMode(fn, recv, args, st, nres, false, true)
+}
+
+func (w *Walker) inlineCallMode(fn *FuncInfo, recv *Term, args []*Term, st *State, nres int, pure, ho bool) ([]callRes, bool) {
+	if (!ho && w.depth >= 4) || w.depth >= 8 || fn == w.Fn {
 		return nil, false
 	}
 	if pure {
@@ -988,7 +1040,13 @@ func (w *Walker) inlineCall(fn *FuncInfo, recv *Term, args []*Term, st *State, n
 		}
 	}
 	sub := &Walker{A: w.A, Fn: fn, info: fn.Pkg.TypesInfo, record: w.record && w.rec != nil, depth: w.depth + 1, inl: &inlineCtx{}, budget: 40000,
-		trackFields: w.trackFields, inlineHelpers: w.inlineHelpers, rec: w.rec}
+		trackFields: w.trackFields, inlineHelpers: w.inlineHelpers, rec: w.rec, siteOwner: w.siteOwner}
+	if ho {
+		sub.record = w.record
+		if w.rec == nil {
+			sub.siteOwner = w.sfn()
+		}
+	}
 	b := st.clone()
 	if fn.RecvVar != nil {
 		rt := recv
